@@ -98,8 +98,8 @@ def cases(tier, seed):
     base = seed * 3_000_017
     n = 6000 if tier == "quick" else 150000
     for i in range(n):
-        yield {"id": i, "fam": "hier", "seed": base + i, "hlen": 8 if tier == "quick" else 12, "deep": tier != "quick" and i % 2 == 0}
-    m = 600 if tier == "quick" else 6000
+        yield {"id": i, "fam": "hier", "seed": base + i, "hlen": 8 if tier == "quick" else 12, "deep": tier != "quick" and i % 2 == 0, "sta": i % 3 == 2}
+    m = 2400 if tier == "quick" else 24000
     for i in range(m):
         yield {"id": n + i, "fam": "tmpl", "seed": base + i}
 
@@ -145,6 +145,23 @@ TEMPLATES = {
         [],
         ["EndA", "Tick", "Tick", "EndA"],
     ),
+    # an action started inside a `when … or when <Action>` case is stopped when the scope ends while its flow runs on;
+    # its …ActionStarted acknowledgement may arrive late (after that Stop); then the flow itself ends
+    "scoped-action-when": (
+        "flow main\n  start fa\n  match Never()\n\n"
+        "flow fa\n  when Win()\n    send Won()\n  or when FaTimerAction()\n    send Timed()\n  match EndA()\n",
+        [],
+        ["Win", "STA", "EndA", "FIN", "X", "STA", "Win"],
+    ),
+    # the same through an or-group of a flow and an action; the owner then fails or finishes
+    "scoped-action-group": (
+        "flow main\n  start fa\n  start fk\n  match Never()\n\n"
+        "flow fw\n  match Win()\n\n"
+        "flow fa\n  await fw or FaGroupAction()\n  match EndA()\n\n"
+        "flow fk\n  match Kill()\n  send StopFlow(flow_id=\"fa\")\n",
+        [],
+        ["Win", "STA", "EndA", "Kill", "FIN", "X", "STA"],
+    ),
     # nested: child of an awaited flow with an action; the grand parent ends
     "nested-await": (
         "flow main\n  start fa\n  match Never()\n\n"
@@ -168,6 +185,8 @@ class Shadow:
         self.starts_of = {}  # flow_id -> number of StartFlow processed
         self.actions = {}  # uid -> dict
         self.fed_finished = {}  # uid -> stamp
+        self.fed_started = {}  # uid -> stamp (…ActionStarted fed by the driver: prompt, or late = after the Stop)
+        self.late_started = 0
         self.problems = []  # (kind, detail, facts)
         self.nontrivial = False
         self.stops_checked = 0
@@ -325,6 +344,18 @@ def drive(src, pre, history, seed, static):
                 continue
             ev = {"type": sh.actions[uid]["name"] + "Finished", "action_uid": uid, "is_success": True, "return_value": None}
             sh.fed_finished[uid] = _T["clock"]
+        elif h == "STA":
+            # the environment acknowledges an action: …ActionStarted, possibly late (after the interpreter already sent Stop)
+            cands = [u for u in sorted(sh.actions) if u not in sh.fed_finished and u not in sh.fed_started and sh.actions[u]["start"] is not None]
+            if not cands:
+                continue
+            stopped = [u for u in cands if sh.actions[u]["stops"]]
+            pool = stopped if (stopped and rng.random() < 0.5) else cands
+            uid = pool[rng.randrange(len(pool))]
+            ev = {"type": sh.actions[uid]["name"] + "Started", "action_uid": uid}
+            sh.fed_started[uid] = _T["clock"]
+            if sh.actions[uid]["stops"]:
+                sh.late_started += 1
         else:
             ev = {"type": h}
         fed.append(ev["type"])
@@ -343,6 +374,8 @@ def run_case(case):
         g = gen_v2.gen_hierarchy(rng, max_flows=6 if case.get("deep") else 5, depth_bias=bool(case.get("deep")), with_groups=True, with_when=True, main_kids_first=rng.random() < 0.8)
         src = g["src"]
         hist = ["FIN" if rng.random() < 0.35 else "E%d" % rng.randint(1, 3) for _ in range(case["hlen"])]
+        if case.get("sta"):
+            hist = [("STA" if rng.random() < 0.25 else h) for h in hist]
         pre = []
         # flows whose body never waits (only `start …Action()` lines)
         nw = set()
@@ -377,6 +410,8 @@ def run_case(case):
         "stop_events_checked": sh.stops_checked,
         "actions_started": len([a for a in sh.actions.values() if a["start"] is not None]),
         "activated_restarts": sh.restarts,
+        "started_events_fed": len(sh.fed_started),
+        "late_started_events_fed": sh.late_started,
         "start_flow_events": sum(sh.starts_of.values()),
         "fam_" + tname: 1,
     }
